@@ -174,7 +174,8 @@ def check_src(rep, prog, fm):
         okv = isinstance(val, Op) and val.op == "getitem" and val.args[1] == Const("Reference Code") and \
             any(x == secj for x in walk(val)) and any(is_const(x, str) and x.v == "Primary SRC" for x in walk(val))
         okg = compare("eq", sid, Const(0x5053)) in conj(sts[0].guard)
-        okt = L.trip is not None and pelx.equivalent(strip_undef(L.trip), pelx.sub(IntF(27, 1), Const(2)))[0]
+        from .c01 import exact_section_count_loop
+        okt = exact_section_count_loop(L)[0]
         brk = [e for e in I.events[L.events[0]:L.events[1]] if e.kind == "break"]
         okb = all(compare("eq", sid, Const(0x5053)) in conj(b.guard) for b in brk)
         ok = okv and okg and okt and okb
